@@ -8,6 +8,7 @@ from props.C02 import fc_frame
 
 class C08(PropBase):
     id = 'C08'
+    partial_passes = 0.25
     lean_modules = ['Isotp.Props.C08']
     agree = []
     theorems = []
